@@ -1,5 +1,5 @@
 use crate::debugger::Debugger;
-use crate::debugger::address::{Address, RelocatedAddress};
+use crate::debugger::address::{Address, GlobalAddress, RelocatedAddress};
 use crate::debugger::debugee::Debugee;
 use crate::debugger::debugee::dwarf::DebugInformation;
 use crate::debugger::debugee::dwarf::unit::PlaceDescriptorOwned;
@@ -111,7 +111,33 @@ impl Debugger {
         &mut self,
         addr: Address,
     ) -> Result<Option<BreakpointView<'_>>, Error> {
+        // A breakpoint created before the debugee start is known to the caller by its
+        // global address, but after the start it is active and registered
+        // by a relocated address.
+        let addr = match addr {
+            Address::Global(global)
+                if self.debugee.is_in_progress()
+                    && self.breakpoints.get_disabled(addr).is_none() =>
+            {
+                self.breakpoints
+                    .active_breakpoints()
+                    .into_iter()
+                    .find(|brkpt| brkpt.addr.into_global(&self.debugee).ok() == Some(global))
+                    .map(|brkpt| Address::Relocated(brkpt.addr))
+                    .unwrap_or(addr)
+            }
+            _ => addr,
+        };
         self.breakpoints.remove_by_addr(addr)
+    }
+
+    /// Return a global (object file relative) address for an address in the debugee process,
+    /// `None` if debugee is not running or the address does not belong to any mapped object.
+    pub fn global_address_of(&self, addr: RelocatedAddress) -> Option<GlobalAddress> {
+        if !self.debugee.is_in_progress() {
+            return None;
+        }
+        addr.into_global(&self.debugee).ok()
     }
 
     /// Disable and remove a breakpoint by it number.
